@@ -259,8 +259,8 @@ def run_impl(case):
     node = geomgen.from_json(case["dom"])
     # every fourth parameter-free 2-D case realises the variable 'x' as R1('xa')*R1('xb') and hands the query
     # points over in the order (xb, xa): the domain has to pick its coordinates by NAME
-    split = (node.vars() == ["x"] and not case["params"] and case.get("id", 0) % 4 == 2
-             and "rotate" not in node.kinds() and "translate" not in node.kinds())
+    # (moved domains included: a Translate / Rotate over a space of several variables has to pick ITS columns by name too)
+    split = (node.vars() == ["x"] and not case["params"] and case.get("id", 0) % 4 == 2)
     geomgen.SPLIT_VARS = {"x": ["xa", "xb"]} if split else {}
     try:
         dom = node.to_tp(tp)
@@ -338,12 +338,19 @@ def boundary_acceptance(case, rep):
         pr = tp.spaces.Points.empty()
     n = 25
     torch.manual_seed(case["id"])
-    hows = ["random", "grid"]
+    hows = ["random", "grid", "random-n1"]
     if len(envs) <= 1:
         hows += ["random-density", "grid-density"]     # density sampling is defined for one parameter row
     for how in hows:
         try:
-            if how == "random":
+            if how == "random-n1":
+                # ONE point per parameter row (the path a product domain takes for its first factor), several draws
+                parts = [common.call_with_timeout(3, B.sample_random_uniform, n=1, params=pr) for _ in range(8)]
+                if any(len(p_) != max(1, len(envs)) for p_ in parts):
+                    rep.count("bdry-sampler-wrong-count:" + how)
+                    continue
+                s = tp.spaces.Points(torch.cat([p_.as_tensor for p_ in parts], dim=0), parts[0].space)
+            elif how == "random":
                 s = common.call_with_timeout(3, B.sample_random_uniform, n=n, params=pr)
             elif how == "grid":
                 s = common.call_with_timeout(3, B.sample_grid, n=n, params=pr)
@@ -357,7 +364,9 @@ def boundary_acceptance(case, rep):
         except Exception:
             rep.count("bdry-sampler-raised:" + how)   # sampling defects belong to C01/C02
             continue
-        if how.endswith("density"):
+        if how == "random-n1":
+            rp = tp.spaces.Points(pr.as_tensor.repeat(8, 1), pr.space) if params else pr
+        elif how.endswith("density"):
             if len(s) == 0:
                 continue
             rp = tp.spaces.Points(pr.as_tensor.repeat(len(s), 1), pr.space) if params else pr
